@@ -2,6 +2,8 @@ package main
 
 import (
 	"fmt"
+	"runtime"
+	"sync"
 
 	"github.com/protobom/protobom/pkg/sbom"
 
@@ -143,94 +145,144 @@ func (v structView) same(w structView) bool {
 }
 
 // runC08Enum runs every history of the given depth; one history in `sample` also goes to the Coq evaluator.
-func runC08Enum(g *gen.G, rep *Report, cfx *CasesFile, depth, sample int) {
-	menu := enumMenu()
-	rep.Rule += fmt.Sprintf("; plus every history of %d operations from a menu of %d (receiver x operation x live argument) over two fixed pools of three lists, all live lists checked after each step, one history in %d also evaluated by the model", depth, len(menu), sample)
+// The histories are split by variant and first operation into independent tasks run on all cores; the
+// results are merged in task order, so a run is reproducible from its seed.
+type enumEmit struct {
+	c     string
+	input map[string]any
+}
+
+type enumResult struct {
+	evals, histories, failures int
+	fails                      []Failure
+	emits                      []enumEmit
+}
+
+func enumTask(menu []enumOp, variant, first, depth, sample int, rng *gen.G) enumResult {
+	var res enumResult
 	idx := make([]int, depth)
-	histories, failures := 0, 0
-	for variant := 0; variant < 2; variant++ {
-		for i := range idx {
-			idx[i] = 0
-		}
-		for {
-			histories++
-			emit := g.Int(sample) == 0
-			pool := enumPool(variant)
-			initial := []any{graphops.PJ(pool[0]), graphops.PJ(pool[1]), graphops.PJ(pool[2])}
-			var history []any
-			for s := 0; s < depth; s++ {
-				e := menu[idx[s]]
-				op := e.build(pool, s)
-				views := []structView{viewOf(pool[0]), viewOf(pool[1]), viewOf(pool[2])}
-				var beforeCoq []string
-				var opCoq string
-				if emit {
-					beforeCoq = []string{coqfmt.NodeList(pool[0]), coqfmt.NodeList(pool[1]), coqfmt.NodeList(pool[2])}
-					opCoq = op.Coq()
-				}
-				d := op.Describe()
-				delete(d, "arg_nodelist")
-				d["receiver"], d["argument_slot"], d["result_slot"] = e.recv, e.arg, e.dst
-				history = append(history, d)
-				after, outcome, pv := op.Apply(pool[e.recv])
-				dst := e.dst
-				if outcome == graphops.OK {
-					pool[dst] = after
-				} else {
-					dst = e.recv
-				}
-				rep.OracleEvals++
-				bad := ""
-				if outcome == graphops.Panic {
-					bad = "operation panicked: " + fmt.Sprint(pv)
-				}
-				for i, l := range pool {
-					if bad != "" {
-						break
-					}
-					if err := props.WellFormed(l); err != nil {
-						bad = fmt.Sprintf("after %s on live list %d (argument %d), live list %d is not well-formed: %v", op.Kind, e.recv, e.arg, i, err)
-					} else if i != dst && !viewOf(l).same(views[i]) {
-						bad = fmt.Sprintf("after %s on live list %d (argument %d, result to %d), live list %d changed although the call neither received nor returned it as its result", op.Kind, e.recv, e.arg, dst, i)
-					}
-				}
-				if emit && outcome != graphops.Panic {
-					input := map[string]any{"initial_pool": initial, "history": append([]any{}, history...)}
-					for i, l := range pool {
-						var c string
-						if i == dst && e.arg == e.recv && e.kind == graphops.RelateList {
-							c = fmt.Sprintf("(SelfRel %s %s %s %d %s)", beforeCoq[e.recv], coqfmt.Str(op.At), coqfmt.Z(int64(op.T)), outcome, coqfmt.NodeList(l))
-						} else if i == dst {
-							c = fmt.Sprintf("(One (mk_case08 %s %s %d %s))", beforeCoq[e.recv], opCoq, outcome, coqfmt.NodeList(l))
-						} else {
-							c = fmt.Sprintf("(Frame %s %s)", beforeCoq[i], coqfmt.NodeList(l))
-						}
-						cfx.Add(c)
-						rep.NoteCase(c, true, input)
-					}
-				}
+	idx[0] = first
+	for {
+		res.histories++
+		emit := rng.Int(sample) == 0
+		pool := enumPool(variant)
+		initial := []any{graphops.PJ(pool[0]), graphops.PJ(pool[1]), graphops.PJ(pool[2])}
+		var history []any
+		for s := 0; s < depth; s++ {
+			e := menu[idx[s]]
+			op := e.build(pool, s)
+			views := []structView{viewOf(pool[0]), viewOf(pool[1]), viewOf(pool[2])}
+			var beforeCoq []string
+			var opCoq string
+			if emit {
+				beforeCoq = []string{coqfmt.NodeList(pool[0]), coqfmt.NodeList(pool[1]), coqfmt.NodeList(pool[2])}
+				opCoq = op.Coq()
+			}
+			d := op.Describe()
+			delete(d, "arg_nodelist")
+			d["receiver"], d["argument_slot"], d["result_slot"] = e.recv, e.arg, e.dst
+			history = append(history, d)
+			after, outcome, pv := op.Apply(pool[e.recv])
+			dst := e.dst
+			if outcome == graphops.OK {
+				pool[dst] = after
+			} else {
+				dst = e.recv
+			}
+			res.evals++
+			bad := ""
+			if outcome == graphops.Panic {
+				bad = "operation panicked: " + fmt.Sprint(pv)
+			}
+			for i, l := range pool {
 				if bad != "" {
-					failures++
-					if failures <= 5 {
-						rep.Fail(Failure{What: "a history of editing operations over several live lists breaks one of them", Detail: bad,
-							Input: map[string]any{"initial_pool": initial, "history": history, "pool_after": []any{graphops.PJ(pool[0]), graphops.PJ(pool[1]), graphops.PJ(pool[2])}}})
+					break
+				}
+				if err := props.WellFormed(l); err != nil {
+					bad = fmt.Sprintf("after %s on live list %d (argument %d), live list %d is not well-formed: %v", op.Kind, e.recv, e.arg, i, err)
+				} else if i != dst && !viewOf(l).same(views[i]) {
+					bad = fmt.Sprintf("after %s on live list %d (argument %d, result to %d), live list %d changed although the call neither received nor returned it as its result", op.Kind, e.recv, e.arg, dst, i)
+				}
+			}
+			if emit && outcome != graphops.Panic {
+				input := map[string]any{"initial_pool": initial, "history": append([]any{}, history...)}
+				for i, l := range pool {
+					var c string
+					if i == dst && e.arg == e.recv && e.kind == graphops.RelateList {
+						c = fmt.Sprintf("(SelfRel %s %s %s %d %s)", beforeCoq[e.recv], coqfmt.Str(op.At), coqfmt.Z(int64(op.T)), outcome, coqfmt.NodeList(l))
+					} else if i == dst {
+						c = fmt.Sprintf("(One (mk_case08 %s %s %d %s))", beforeCoq[e.recv], opCoq, outcome, coqfmt.NodeList(l))
+					} else {
+						c = fmt.Sprintf("(Frame %s %s)", beforeCoq[i], coqfmt.NodeList(l))
 					}
-					break
+					res.emits = append(res.emits, enumEmit{c, input})
 				}
 			}
-			// next history
-			k := depth - 1
-			for k >= 0 {
-				idx[k]++
-				if idx[k] < len(menu) {
-					break
+			if bad != "" {
+				res.failures++
+				if len(res.fails) < 2 {
+					res.fails = append(res.fails, Failure{What: "a history of editing operations over several live lists breaks one of them", Detail: bad,
+						Input: map[string]any{"initial_pool": initial, "history": history, "pool_after": []any{graphops.PJ(pool[0]), graphops.PJ(pool[1]), graphops.PJ(pool[2])}}})
 				}
-				idx[k] = 0
-				k--
-			}
-			if k < 0 {
 				break
 			}
+		}
+		// next history of this task (the first operation is fixed)
+		k := depth - 1
+		for k >= 1 {
+			idx[k]++
+			if idx[k] < len(menu) {
+				break
+			}
+			idx[k] = 0
+			k--
+		}
+		if k < 1 {
+			break
+		}
+	}
+	return res
+}
+
+func runC08Enum(g *gen.G, rep *Report, cfx *CasesFile, depth, sample int) {
+	menu := enumMenu()
+	rep.Rule += fmt.Sprintf("; plus every history of %d operations from a menu of %d (receiver x operation x live argument, the list itself included) over two fixed pools of three lists, all live lists checked after each step, one history in %d also evaluated by the model", depth, len(menu), sample)
+	type task struct {
+		variant, first int
+		rng            *gen.G
+	}
+	var tasks []task
+	for variant := 0; variant < 2; variant++ {
+		for first := range menu {
+			tasks = append(tasks, task{variant, first, gen.New(int64(g.Int(1 << 30)))})
+		}
+	}
+	results := make([]enumResult, len(tasks))
+	var wg sync.WaitGroup
+	sem := make(chan struct{}, runtime.NumCPU())
+	for ti := range tasks {
+		wg.Add(1)
+		sem <- struct{}{}
+		go func(ti int) {
+			defer wg.Done()
+			defer func() { <-sem }()
+			results[ti] = enumTask(menu, tasks[ti].variant, tasks[ti].first, depth, sample, tasks[ti].rng)
+		}(ti)
+	}
+	wg.Wait()
+	histories, failures := 0, 0
+	for _, r := range results {
+		histories += r.histories
+		failures += r.failures
+		rep.OracleEvals += r.evals
+		for _, f := range r.fails {
+			if len(rep.OracleFails) < 5 {
+				rep.Fail(f)
+			}
+		}
+		for _, e := range r.emits {
+			cfx.Add(e.c)
+			rep.NoteCase(e.c, true, e.input)
 		}
 	}
 	rep.Count(fmt.Sprintf("enumerated_histories=%d", histories))
